@@ -13,10 +13,10 @@ import (
 
 	"github.com/deadsy/sdfx/render"
 	"github.com/deadsy/sdfx/sdf"
-	"github.com/deadsy/sdfx/verifrt/vos"
-	"github.com/deadsy/sdfx/verifrt/vsync"
 	v2 "github.com/deadsy/sdfx/vec/v2"
 	v3 "github.com/deadsy/sdfx/vec/v3"
+	"github.com/deadsy/sdfx/verifrt/vos"
+	"github.com/deadsy/sdfx/verifrt/vsync"
 
 	"verif/lib/vlib"
 )
@@ -89,7 +89,7 @@ func (dummy2) BoundingBox() sdf.Box2   { return sdf.Box2{Max: v2.Vec{X: 1, Y: 1}
 
 // scenario description (also the replay format)
 type scen struct {
-	Kind    string  `json:"kind"` // tbuf, lbuf, totriangles, tostl, tosvg, todxf, to3mf
+	Kind    string  `json:"kind"`    // tbuf, lbuf, totriangles, tostl, tosvg, todxf, to3mf
 	Batches [][]int `json:"batches"` // per producer
 	Bound   int     `json:"bound"`
 	Prefix  []int   `json:"schedule_prefix,omitempty"`
@@ -218,42 +218,42 @@ func (sc scen) body() (func(), func() ([]int, string)) {
 		var got []int
 		var chunks []int
 		return func() {
-				got, chunks = nil, nil
-				var cwg vsync.WaitGroup
-				out := vsync.MakeChan[[]*sdf.Line2]()
-				cwg.Add(1)
-				vsync.Go(func() {
-					defer cwg.Done()
-					for {
-						ls, ok := out.Recv2()
-						if !ok {
-							return
-						}
-						chunks = append(chunks, len(ls))
-						for _, l := range ls {
-							got = append(got, int(l[0].X))
-						}
+			got, chunks = nil, nil
+			var cwg vsync.WaitGroup
+			out := vsync.MakeChan[[]*sdf.Line2]()
+			cwg.Add(1)
+			vsync.Go(func() {
+				defer cwg.Done()
+				for {
+					ls, ok := out.Recv2()
+					if !ok {
+						return
 					}
-				})
-				w := sdf.NewLine2Buffer(out)
-				if len(sc.Batches) == 1 {
-					producer2(w, 0, sc.Batches[0], make([]*sdf.Line2, 1100))
-				} else {
-					var pwg vsync.WaitGroup
-					for p := range sc.Batches {
-						p := p
-						pwg.Add(1)
-						vsync.Go(func() {
-							defer pwg.Done()
-							producer2(w, p*100000, sc.Batches[p], make([]*sdf.Line2, 1100))
-						})
+					chunks = append(chunks, len(ls))
+					for _, l := range ls {
+						got = append(got, int(l[0].X))
 					}
-					pwg.Wait()
 				}
-				w.Close()
-				out.Close()
-				cwg.Wait()
-			}, func() ([]int, string) { return got, fmt.Sprint(chunks) }
+			})
+			w := sdf.NewLine2Buffer(out)
+			if len(sc.Batches) == 1 {
+				producer2(w, 0, sc.Batches[0], make([]*sdf.Line2, 1100))
+			} else {
+				var pwg vsync.WaitGroup
+				for p := range sc.Batches {
+					p := p
+					pwg.Add(1)
+					vsync.Go(func() {
+						defer pwg.Done()
+						producer2(w, p*100000, sc.Batches[p], make([]*sdf.Line2, 1100))
+					})
+				}
+				pwg.Wait()
+			}
+			w.Close()
+			out.Close()
+			cwg.Wait()
+		}, func() ([]int, string) { return got, fmt.Sprint(chunks) }
 	case "totriangles":
 		var ts []*sdf.Triangle3
 		return func() { ts = render.ToTriangles(dummy3{}, scripted3{sc.Batches[0]}) }, func() ([]int, string) {
@@ -335,7 +335,7 @@ func runScenario(c *vlib.Ctx, sc scen, j *vlib.Job) {
 		n += total(b)
 	}
 	outcomes := map[string]bool{}
-	st := vsync.ExploreAll(vsync.Options{Bound: sc.Bound, Stop: c.Expired}, body, func(x *vsync.Execution, prefix []int) bool {
+	st := vsync.ExploreAll(vsync.Options{Bound: sc.Bound, Stop: c.Expired, Prune: true}, body, func(x *vsync.Execution, prefix []int) bool {
 		got, info := result()
 		rep := func() scen {
 			r := sc
@@ -371,6 +371,7 @@ func runScenario(c *vlib.Ctx, sc scen, j *vlib.Job) {
 	j.States += st.Executions
 	j.Transitions += st.Steps
 	j.Count("executions", st.Executions)
+	j.Count("pruned-executions", st.Pruned)
 	j.Count("executions-with-choice", st.WithChoice)
 	j.Count("distinct-traces", int64(len(st.Distinct)))
 	j.Count("scenarios", 1)
@@ -424,7 +425,7 @@ func main() {
 		rec(nil)
 		return out
 	}
-	maxLen := vlib.Pick(c, 2, 3)
+	maxLen := 3
 	for _, s := range seqs(menu(T), maxLen) {
 		scens = append(scens, scen{Kind: "tbuf", Batches: [][]int{s}, Bound: -1})
 	}
@@ -443,7 +444,7 @@ func main() {
 	}
 	// multi-producer
 	pm := func(t int) [][]int { return [][]int{{1}, {t - 1}, {t}, {t + 1}, {1, t}, {t - 1, 2}, {t, t}} }
-	bound := vlib.Pick(c, 2, 3)
+	bound := -1 // unbounded: every interleaving (with happens-before state pruning)
 	for _, a := range pm(T) {
 		for _, b := range pm(T) {
 			scens = append(scens, scen{Kind: "tbuf", Batches: [][]int{a, b}, Bound: bound})
@@ -454,13 +455,17 @@ func main() {
 			scens = append(scens, scen{Kind: "lbuf", Batches: [][]int{a, b}, Bound: bound})
 		}
 	}
-	if c.Thorough() {
-		for _, a := range [][]int{{T}, {T - 1, 2}, {1}} {
-			for _, b := range [][]int{{T}, {2}} {
-				for _, d := range [][]int{{T + 1}, {1}} {
-					scens = append(scens, scen{Kind: "tbuf", Batches: [][]int{a, b, d}, Bound: 2}, scen{Kind: "tbuf-collector", Batches: [][]int{a, b, d}, Bound: 2})
-				}
+	b3 := vlib.Pick(c, 3, -1)
+	for _, a := range [][]int{{T}, {T - 1, 2}, {1}} {
+		for _, b := range [][]int{{T}, {2}} {
+			for _, d := range [][]int{{T + 1}, {1}} {
+				scens = append(scens, scen{Kind: "tbuf", Batches: [][]int{a, b, d}, Bound: b3}, scen{Kind: "tbuf-collector", Batches: [][]int{a, b, d}, Bound: b3})
 			}
+		}
+	}
+	for _, a := range pm(T) {
+		for _, b := range pm(T) {
+			scens = append(scens, scen{Kind: "tbuf-collector", Batches: [][]int{a, b}, Bound: bound})
 		}
 	}
 	sort.SliceStable(scens, func(i, k int) bool { return len(scens[i].Batches) < len(scens[k].Batches) })
@@ -500,9 +505,9 @@ func main() {
 		Rule:       "states = complete executions of the real buffer/collector/writer code under the controlled scheduler (one per explored schedule); transitions = scheduler steps (visible sync operations); non-trivial = distinct operation traces (schedules that differ in the order of visible operations)",
 		Samples:    samples,
 		Exhaustive: true,
-		Bounds: map[string]any{"batch_menu": "0,1,2,5,T-1,T,T+1,2T-1,2T,2T+3 (T=256 triangles / 128 lines)", "writes_per_producer": maxLen, "producers": "1 (all interleavings), 2 (<= " + fmt.Sprint(bound) + " preemptions), 3 (thorough, <= 2)",
+		Bounds: map[string]any{"batch_menu": "0,1,2,5,T-1,T,T+1,2T-1,2T,2T+3 (T=256 triangles / 128 lines)", "writes_per_producer": maxLen, "producers": "1 and 2: all interleavings (unbounded, happens-before state pruning); 3: <= 3 preemptions (thorough: unbounded)",
 			"sinks": "own consumer, sdf.WriteTriangles, render.ToTriangles, render.ToSTL (vos), render.ToSVG (vos)", "scenarios": len(scens)},
-		Extra:       map[string]any{"counters": m.Counters},
+		Extra: map[string]any{"counters": m.Counters},
 		Assumptions: []string{"interleavings at synchronisation operations (mutex, channel, waitgroup, go) of the rewritten files; vrewrite refuses constructs it does not model", "producers reuse one scratch slice and poison it after Write returns (a writer must copy)",
 			"3MF and DXF sinks are covered by C15 (content) and C12 (termination); here the in-memory sinks are explored exhaustively"},
 	})
